@@ -30,6 +30,14 @@ PROPS["C17"] = {
     "explanation": "sliver diff vs edit script", "assumptions": [],
 }
 
+PROPS["C11"] = {
+    "modules": ["harness.c11"], "level": "model_checking", "design_ref": "DESIGN.md 2/C11",
+    "level_text": "Slices are lists of node/service slivers built from symbolic scalars (type/site/port indices, unbounded capacities); "
+                  "the collectors' output is compared with a direct tally and across every collection order, for all assignments.",
+    "level_note": XH_NOTE + " Sliver level only: extracting slivers from a topology and the serialized-model path (GraphML) are outside.",
+    "explanation": "authz attribute completeness and order independence", "assumptions": [],
+}
+
 NOT_APPLICABLE = {
     "C01": "every value on the GraphML/JSON text path crosses expat/lxml/json C code and temp files, where a symbolic value is "
            "concretised; what remains would be concrete sampling, i.e. a different technique (store-level half is decided under C04/C20)",
